@@ -442,6 +442,8 @@ func (o *Ops) Write(req *go9p.SrvReq) {
 	tc := req.Tc
 	conn, p, _ := o.enter(req, "Write", fmt.Sprintf("offset=%d count=%d data=%s", tc.Offset, tc.Count, hash(tc.Data)))
 	o.finish(req, conn, p, "Write", func() {
+		// the payload as it is when the implementation is done with it (it aliases the server's receive buffer)
+		o.Log.Add(Event{Kind: "latehash", Conn: conn, Tag: tc.Tag, Op: "Write", Args: hash(tc.Data)})
 		req.RespondRwrite(uint32(len(tc.Data)))
 	})
 }
